@@ -11,5 +11,99 @@ package brutal
 //@   props C10
 //@   ensures ret != nil && fresh(ret)
 //@   ensures bps <= 9223372036854775807 ==> ret.bps == bps
-//@   ensures ret.disableLossCompensation == disableLossCompensation && ret.ackRate == 1.0 && ret.maxDatagramSize == 1280
+//@   ensures ret.disableLossCompensation == disableLossCompensation && ret.ackRate == 1.0 && ret.maxDatagramSize == 1280 && ret.pacer != nil && ret.pacer.maxDatagramSize == 1280 && ret.pacer.lastSentTime == 0
 //@   ensures ret.bps == bps
+
+// ---------------------------------------------------------------------------
+// C11: loss compensation and the congestion window of the Brutal sender.
+// The sampling window at second ts is the slots stamped ts-5 .. ts; acks / losses are their
+// sums; the factor is 1 below 50 samples, else acked/(acked+lost) floored at 0.8.
+// Assumption (slotsBelow): fewer than 2^59 packets have been counted in a slot when an event
+// arrives (the uint64 sums do not wrap).
+//@ spec func inWin(b, i, ts) = b.pktInfoSlots[i].Timestamp >= ts - 5
+//@ spec func ackAt(b, i, ts) = ite(inWin(b, i, ts), b.pktInfoSlots[i].AckCount, 0)
+//@ spec func lossAt(b, i, ts) = ite(inWin(b, i, ts), b.pktInfoSlots[i].LossCount, 0)
+// the sums over the first k of the five slots (k = 5: the whole ring)
+//@ spec func ackUpTo(b, ts, k) = ite(k >= 1, ackAt(b, 0, ts), 0) + ite(k >= 2, ackAt(b, 1, ts), 0) + ite(k >= 3, ackAt(b, 2, ts), 0) + ite(k >= 4, ackAt(b, 3, ts), 0) + ite(k >= 5, ackAt(b, 4, ts), 0)
+//@ spec func lossUpTo(b, ts, k) = ite(k >= 1, lossAt(b, 0, ts), 0) + ite(k >= 2, lossAt(b, 1, ts), 0) + ite(k >= 3, lossAt(b, 2, ts), 0) + ite(k >= 4, lossAt(b, 3, ts), 0) + ite(k >= 5, lossAt(b, 4, ts), 0)
+//@ spec func factor(a, l) = ite(a + l < 50, 1.0, ite(float64(a) / float64(a + l) < 0.8, 0.8, float64(a) / float64(a + l)))
+//@ spec func slotBelow(b, i, B) = b.pktInfoSlots[i].AckCount < B && b.pktInfoSlots[i].LossCount < B
+//@ spec func slotsBelow(b, B) = slotBelow(b, 0, B) && slotBelow(b, 1, B) && slotBelow(b, 2, B) && slotBelow(b, 3, B) && slotBelow(b, 4, B)
+//@ objinv BrutalSender: this.ackRate >= 0.8 && this.ackRate <= 1.0
+
+//@ func (*BrutalSender).debugPrint
+//@   props C11
+//@   trusted
+//@ func (*BrutalSender).updateAckRate
+//@   props C11
+//@   nonil
+//@   requires slotsBelow(b, 1<<60) && currentTimestamp >= 0
+//@   ensures b.disableLossCompensation ==> b.ackRate == 1.0
+//@   ensures !b.disableLossCompensation ==> b.ackRate == factor(ackUpTo(b, currentTimestamp, 5), lossUpTo(b, currentTimestamp, 5))
+//@   modifies b.ackRate, b.lastAckPrintTimestamp
+//@   loop 0
+//@     invariant -1 <= rangeindex && rangeindex < 5
+//@     invariant ackCount == ackUpTo(b, currentTimestamp, rangeindex + 1) && lossCount == lossUpTo(b, currentTimestamp, rangeindex + 1)
+
+// One congestion event: the batch is added to the slot of the event's second (a slot
+// stamped with another second is restarted), no other slot changes, and the factor is
+// recomputed over the window ending at that second.
+//@ spec func sec(t) = t / 1000000000
+//@ func (*BrutalSender).OnCongestionEventEx
+//@   props C11
+//@   nonil
+//@   requires eventTime >= 0 && slotsBelow(b, 1<<59)
+//@   ensures b.pktInfoSlots[sec(eventTime) % 5].Timestamp == sec(eventTime)
+//@   ensures old(b.pktInfoSlots[sec(eventTime) % 5].Timestamp) == sec(eventTime) ==> b.pktInfoSlots[sec(eventTime) % 5].AckCount == old(b.pktInfoSlots[sec(eventTime) % 5].AckCount) + len(ackedPackets) && b.pktInfoSlots[sec(eventTime) % 5].LossCount == old(b.pktInfoSlots[sec(eventTime) % 5].LossCount) + len(lostPackets)
+//@   ensures old(b.pktInfoSlots[sec(eventTime) % 5].Timestamp) != sec(eventTime) ==> b.pktInfoSlots[sec(eventTime) % 5].AckCount == len(ackedPackets) && b.pktInfoSlots[sec(eventTime) % 5].LossCount == len(lostPackets)
+//@   ensures forall(i, 0, 5, i != sec(eventTime) % 5 ==> b.pktInfoSlots[i].Timestamp == old(b.pktInfoSlots[i].Timestamp) && b.pktInfoSlots[i].AckCount == old(b.pktInfoSlots[i].AckCount) && b.pktInfoSlots[i].LossCount == old(b.pktInfoSlots[i].LossCount))
+//@   ensures b.disableLossCompensation ==> b.ackRate == 1.0
+//@   ensures !b.disableLossCompensation ==> b.ackRate == factor(ackUpTo(b, sec(eventTime), 5), lossUpTo(b, sec(eventTime), 5))
+//@   modifies b.ackRate, b.lastAckPrintTimestamp, b.pktInfoSlots
+
+// The sender and its pacer agree on the datagram size (so the budget the pacer promises at
+// its wake-up time is the budget HasPacingBudget asks for), and the window is never below
+// one datagram. Assumption about quic-go: datagram sizes are between 1 and 10240 bytes.
+//@ objinv BrutalSender: this.pacer != nil && this.maxDatagramSize == this.pacer.maxDatagramSize && this.maxDatagramSize >= 1 && this.maxDatagramSize <= 10240
+//@ iface congestion.RTTStatsProvider.SmoothedRTT(p) (d)
+//@   pure
+//@ extern func (time.Duration).Seconds(d) (s)
+//@   pure
+//@ func (*BrutalSender).GetCongestionWindow
+//@   props C11
+//@   nonil
+//@   ensures ret >= b.maxDatagramSize
+//@ func (*BrutalSender).CanSend
+//@   props C11
+//@   nonil
+//@   ensures bytesInFlight <= b.maxDatagramSize ==> ret
+//@ func (*BrutalSender).SetMaxDatagramSize
+//@   props C11
+//@   nonil
+//@   requires size >= 1 && size <= 10240
+//@   ensures b.maxDatagramSize == size && b.pacer.maxDatagramSize == size
+//@   modifies b.maxDatagramSize, b.pacer.maxDatagramSize
+//@ func (*BrutalSender).HasPacingBudget
+//@   props C11
+//@   nonil
+//@   requires now >= b.pacer.lastSentTime && bw(b.pacer) * (now - b.pacer.lastSentTime) < 1<<63
+//@   ensures ret == (budgetAt(b.pacer, now) >= b.maxDatagramSize)
+//@ func (*BrutalSender).TimeUntilSend
+//@   props C11
+//@   nonil
+//@   requires b.pacer.lastSentTime <= 1<<62
+//@   ensures b.pacer.budgetAtLastSent >= b.maxDatagramSize ==> ret == 0
+//@   ensures b.pacer.budgetAtLastSent < b.maxDatagramSize ==> ret == b.pacer.lastSentTime + max(1000000, ceilDiv(1000000000*(b.maxDatagramSize-b.pacer.budgetAtLastSent), bw(b.pacer)))
+//@ func (*BrutalSender).OnPacketSent
+//@   props C11
+//@   nonil
+//@   requires sentTime >= b.pacer.lastSentTime && bytes >= 0 && bw(b.pacer) * (sentTime - b.pacer.lastSentTime) < 1<<63
+//@   ensures b.pacer.budgetAtLastSent == max(0, old(budgetAt(b.pacer, sentTime)) - bytes) && b.pacer.lastSentTime == sentTime
+//@   modifies b.pacer.budgetAtLastSent, b.pacer.lastSentTime
+
+// the pacer's rate: the configured rate divided by the factor, i.e. between rate and rate/0.8
+//@ func NewBrutalSender$1
+//@   props C11
+// (bs is the captured variable's cell, allocated by NewBrutalSender: never nil)
+//@   requires bs != nil && *bs != nil && (*bs).ackRate >= 0.8 && (*bs).ackRate <= 1.0 && (*bs).bps >= 0 && (*bs).bps < 1<<60
+//@   ensures ret >= (*bs).bps && float64(ret) * 0.8 <= float64((*bs).bps)
